@@ -10,7 +10,8 @@ CONSTANTS
   MaxOps = 3
   MaxNotes = 1
   Menu = 2
+  Hyg = TRUE
 VIEW View
 INVARIANTS FoldEq LayerB Contiguous ScannedExact NoneLost BelowBirthday NoOpenAdjacent ChainedIsUnion SameAsLayerA
-PROPERTIES ScanCovers TipMonotone
+PROPERTIES ScanCovers TipMonotone PruneLaw
 CHECK_DEADLOCK FALSE
